@@ -18,7 +18,7 @@ ASSUMPTIONS = ['outputs compared bitwise (identical arrays reach the numeric ker
                'LFDA: ARPACK eigsh starts from a random vector, so its components_ are compared through M = L^T L, '
                '|transform| and distances at rtol 1e-7 (sign of each eigenvector is arbitrary)']
 
-DTYPES = ['int8', 'int16', 'int32', 'int64', 'uint8', 'uint16', 'uint32', 'pyint']
+DTYPES = ['int8', 'int16', 'int32', 'int64', 'uint8', 'uint16', 'uint32', 'uint64', 'pyint']
 
 
 @st.composite
